@@ -30,6 +30,11 @@ func init() {
 	}
 }
 
+// names that are keywords of the Swagger / JSON-schema grammar: legal as definition and property names (they are map
+// keys), and a trap for code that recognises the parts of a JSON pointer by their spelling
+var keywordNames = []string{"properties", "items", "allOf", "definitions", "parameters", "responses", "schema",
+	"additionalProperties", "additionalItems", "paths", "get", "default", "200", "headers", "body"}
+
 var plainProps = []string{"id", "name", "owner", "tags", "kind", "value", "next", "items", "data", "meta", "count", "child", "parent", "status",
 	"idx", "names", "metadata", "kinds"}
 
@@ -164,6 +169,7 @@ func genBundle(r *R, opts FlatOpts, plus bool, thorough bool, force map[string]b
 	flag("opMedia", 35)
 	flag("paramEnums", 35)
 	flag("mangleTwins", 15)
+	flag("keywordNames", 12)
 	naux := 0
 	switch x := r.Intn(10); {
 	case x < 2:
@@ -321,6 +327,50 @@ func genBundle(r *R, opts FlatOpts, plus bool, thorough bool, force map[string]b
 					"q":    obj{"$ref": mkRef("", "definitions", "?")},
 					"b":    obj{"$ref": mkRef("", "definitions", "[]")},
 					"next": obj{"$ref": mkRef("", "definitions", "punctNode")}}}
+				if g.r.P(40) {
+					// a punctuation-only-named definition that HOLDS a $ref - to a $ref-free definition of the same document
+					// named like a root definition - and has two referrers; the colliding leaf has a shallower referrer too
+					rd := g.docs[0]
+					leaf := ""
+					for _, n := range ad.defNames {
+						for _, k := range rd.defNames {
+							if ad.refFree[n] && strings.EqualFold(k, n) && isPlainIdent(n) {
+								leaf = n
+							}
+						}
+					}
+					if leaf == "" {
+						for _, k := range rd.defNames {
+							free := isPlainIdent(k)
+							for _, d := range g.docs[1:] {
+								for _, n := range d.defNames {
+									if strings.EqualFold(k, n) {
+										free = false
+									}
+								}
+							}
+							if free {
+								leaf = k
+								ad.defNames = append(ad.defNames, leaf)
+								ad.refFree[leaf] = true
+								ad.defs[leaf] = obj{"type": "string", "minLength": 2}
+								break
+							}
+						}
+					}
+					if leaf != "" {
+						ad.defNames = append(ad.defNames, "??")
+						shape := obj{"type": "object", "properties": obj{"c": obj{"$ref": mkRef("", "definitions", leaf)}, "d": g.primitive()}}
+						if g.r.P(50) {
+							shape = obj{"type": "array", "items": obj{"$ref": mkRef("", "definitions", leaf)}}
+						}
+						ad.defs["??"] = shape
+						pn := ad.defs["punctNode"].(obj)["properties"].(obj)
+						pn["z1"] = obj{"$ref": mkRef("", "definitions", "??")}
+						pn["z2"] = obj{"$ref": mkRef("", "definitions", "??")}
+						pn["a0"] = obj{"$ref": mkRef("", "definitions", leaf)}
+					}
+				}
 				if g.r.P(60) {
 					g.addRootOp("/punctnode", obj{"$ref": refTo(g.docs[0], ad, "definitions", "punctNode")})
 				} else {
@@ -410,7 +460,9 @@ func (g *bundleGen) assemble(d *gDoc) obj {
 func (g *bundleGen) freshName(used map[string]bool, exotic bool) string {
 	for try := 0; try < 50; try++ {
 		var n string
-		if exotic && g.r.P(60) {
+		if g.on("keywordNames") && g.r.P(35) {
+			n = g.r.Pick(keywordNames)
+		} else if exotic && g.r.P(60) {
 			n = g.r.Pick(exoticNames)
 		} else {
 			n = g.r.Pick(plainNames)
@@ -545,7 +597,9 @@ func contains(xs []string, s string) bool {
 func (g *bundleGen) propName(used map[string]bool) string {
 	for try := 0; try < 30; try++ {
 		var n string
-		if g.on("exoticPropNames") && g.r.P(40) {
+		if g.on("keywordNames") && g.r.P(35) {
+			n = g.r.Pick(keywordNames)
+		} else if g.on("exoticPropNames") && g.r.P(40) {
 			n = g.r.Pick(exoticNames)
 		} else {
 			n = g.r.Pick(plainProps)
@@ -1495,6 +1549,32 @@ func (g *bundleGen) plantAnonPointers() {
 			k = 2
 		}
 	}
+	if !usePreferred && len(sameDef) < 2 {
+		// bias, sometimes, towards two rarer kinds of target: the COMPLEX schema of a shared parameter/response, and a
+		// target whose pointer holds a non-ASCII letter (URL-escaped in the $ref, raw in the key)
+		var narrowed []target
+		switch {
+		case g.on("anonPtrShared") && r.P(30):
+			if !g.opts.RemoveUnused {
+				rd.responses["complexShared"] = obj{"description": "shared", "schema": obj{"type": "object", "properties": obj{"payload": g.primitive(), "more": obj{"type": "array", "items": g.primitive()}}}}
+				rd.paths["/cshared"] = obj{"get": obj{"responses": obj{"200": obj{"$ref": "#/responses/complexShared"}}}}
+				narrowed = append(narrowed, target{[]string{"responses", "complexShared", "schema"}})
+			}
+		case r.P(25):
+			for _, t := range targets {
+				for _, tok := range t.toks {
+					for _, c := range tok {
+						if c > 127 && unicode.IsLetter(c) {
+							narrowed = append(narrowed, t)
+						}
+					}
+				}
+			}
+		}
+		if len(narrowed) > 0 {
+			targets = narrowed
+		}
+	}
 	for i := 0; i < k; i++ {
 		t := targets[r.Intn(len(targets))]
 		if usePreferred {
@@ -1593,6 +1673,11 @@ func (g *bundleGen) plantMangleTwins() {
 	}})
 	g.addRootDef(second, obj{"type": "object", "properties": obj{"again": deepCopy(ref)}})
 	g.addRootOp("/mangled", obj{"$ref": mkRef("", "definitions", holder)})
+	if g.on("anonPtr") && r.P(30) {
+		// anonymous pointers to both twins (direct sub-schemas of a root definition)
+		g.addRootOp("/twinptr0", obj{"$ref": mkRef("", "definitions", holder, "properties", pr[0])})
+		g.addRootOp("/twinptr1", obj{"$ref": mkRef("", "definitions", holder, "properties", pr[1])})
+	}
 	if r.P(60) {
 		g.addRootOp("/mangled2", obj{"$ref": mkRef("", "definitions", second)})
 	}
